@@ -79,10 +79,10 @@ theorem storeStep_completed (env : Nat → Content) (b : BlockData) (s : Shred) 
 
 /-- `add_shred` either leaves `completed` alone or announces exactly the block it stores -/
 theorem addShred_completed (env : Nat → Content) (b : BlockData) (s : Shred) :
-    (addShred env b s).1.completed = b.completed ∨
-    ∃ info txs, (addShred env b s).2 = .ev (.block info) ∧
-      (addShred env b s).1.completed = some ⟨info.hash, info.parent, txs⟩ := by
-  unfold addShred
+    (addShredCore env b s).1.completed = b.completed ∨
+    ∃ info txs, (addShredCore env b s).2 = .ev (.block info) ∧
+      (addShredCore env b s).1.completed = some ⟨info.hash, info.parent, txs⟩ := by
+  unfold addShredCore
   cases hc : cacheStep b s with
   | none => left; rfl
   | some b1 =>
